@@ -17,6 +17,7 @@ import (
 	"fmt"
 	"math/rand"
 	"os"
+	"path/filepath"
 	"sort"
 	"strings"
 	"time"
@@ -83,12 +84,16 @@ func main() {
 		obsAll  = flag.Bool("obs", true, "record the read matrix after every call")
 		bigSize = flag.Bool("big", false, "use the full range of content sizes (slower)")
 		unique  = flag.Bool("uniquekeys", false, "every Set writes a key of its own (nothing is ever overwritten)")
+		maxDir  = flag.Uint64("maxdir", 100, "configured directory limit (values below 100 are clamped to 100 by the code)")
+		rootSty = flag.Int("rootstyle", 0, "0: clean root paths; 1: trailing slash, doubled slash, /./ (the same directories, spelled differently)")
+		waves   = flag.Int("waves", 0, "N > 0: alternate N autocommit writes of fresh keys with N/2 deletions of the oldest keys and a collection (directories fill up, regain room, fill up again)")
 		reAfter = flag.Int("reopenafter", 0, "no reopen before this step (lets directories fill up one after the other first)")
 	)
 	flag.Parse()
 	drv.InstallCounters()
 	rng := rand.New(rand.NewSource(*seed))
-	ctx := context.Background()
+	bg := context.Background()
+	ctx := bg
 
 	dir, err := os.MkdirTemp(*base, "rnd")
 	if err != nil {
@@ -96,6 +101,20 @@ func main() {
 	}
 	defer os.RemoveAll(dir)
 	cfg := drv.NewConfig(dir, *roots)
+	cfg.Storage.MaxDirCount = *maxDir
+	if *rootSty == 1 {
+		for i, r := range cfg.Storage.RootDirs {
+			d, b := filepath.Split(r)
+			switch i % 3 {
+			case 0:
+				cfg.Storage.RootDirs[i] = r + "/"
+			case 1:
+				cfg.Storage.RootDirs[i] = d + "/" + b
+			default:
+				cfg.Storage.RootDirs[i] = d + "./" + b
+			}
+		}
+	}
 	var d drv.Driver
 	if *mode == "external" {
 		d, err = drv.OpenExternal(cfg)
@@ -172,6 +191,7 @@ func main() {
 		op string
 		w  int
 	}
+	var waveLive []string
 	for n := 0; n < *steps; n++ {
 		var cs []choice
 		add := func(op string, w int) {
@@ -229,6 +249,22 @@ func main() {
 		if len(open) > 0 {
 			endWho = open[rng.Intn(len(open))]
 		}
+		if *waves > 0 {
+			// fill: N fresh keys; drain: N/2 deletions of the oldest live keys, then one collection
+			period := *waves + *waves/2 + 1
+			ph := n % period
+			who = 0
+			switch {
+			case ph < *waves:
+				op, key = "set", fmt.Sprintf("w%d", 100000+n)
+				waveLive = append(waveLive, key)
+			case ph < period-1 && len(waveLive) > 0:
+				op, key = "del", waveLive[0]
+				waveLive = waveLive[1:]
+			default:
+				op = "gc"
+			}
+		}
 		if skipped[op] {
 			if op == "late" && lateKind == 0 {
 				ntag++ // keep the content tags of the remaining steps aligned with the full run
@@ -237,6 +273,9 @@ func main() {
 		}
 		ev := event{Op: op, N: n, Obs: []obs{}, Keys: []keysObs{}}
 		var opErr error
+		// every call gets its own context, given up as soon as the call has returned (three steps in four)
+		opCtx, stop := context.WithCancel(bg)
+		ctx = opCtx
 		switch op {
 		case "set":
 			ntag++
@@ -330,6 +369,11 @@ func main() {
 				opErr = h.Rollback(ctx)
 			}
 		}
+		if n%4 != 0 {
+			stop()
+		}
+		defer stop()
+		ctx = bg
 		ev.Res = drv.Class(opErr)
 		ev.Idle = drv.WaitIdle(5 * time.Second)
 
